@@ -12,7 +12,9 @@
 // variable, a map or the result type of a conversion function of another type: every flowing signature
 // downstream is stale); renamed (the element type was renamed: the old signatures mention a type that no
 // longer exists); extra (the old sources had one more chain: the file declares functions nobody calls);
-// missing (the old sources lacked a chain); hand-written-added (the new sources declare BY HAND, in a file sorting
+// missing (the old sources lacked a chain); head-added (the old sources lacked the first calls of a chain, whose
+// start variable had the type they produce: the old file has the later functions and not the innermost one);
+// hand-written-added (the new sources declare BY HAND, in a file sorting
 // before or after derived.gen.go, a function that the old sources let goderive generate: its call is an ordinary
 // call now, typed by the user's declaration); any of them with function declarations cut out of the file
 // (`old_drop`). The old sources are generated from the same SHAPE (calls, names, bindings) as the new
@@ -97,7 +99,9 @@ type chain struct {
 	steps    []step
 	file     string
 	idx      int
-	startPkg bool // always true: start variables are package-level
+	startPkg bool   // always true: start variables are package-level
+	skip     int    // an earlier version that lacked the first calls of the chain: steps[:skip] are left out ...
+	startTy  string // ... and the start variable is declared with the type they would have produced
 }
 
 type shape struct {
@@ -305,6 +309,33 @@ func parseTy(s string) ty {
 // local variables), then its function; the blocks of a file are printed in chain order. So the calls of a
 // file are those of its chains in order, within a chain statement by statement, within a statement outer
 // call first (collect).
+// the type that flows out of the first k calls of a chain
+func typeAfter(c chain, ch choice, k int) ty {
+	var cur ty
+	kind := c.start
+	if x, ok := ch.startKind[c.idx]; ok {
+		kind = x
+	}
+	switch kind {
+	case "chan":
+		cur = chanOf(ch.startElem[c.idx])
+	case "map":
+		val := ch.startVal[c.idx]
+		if val == "" {
+			val = "int"
+		}
+		cur = mapOf(ch.startElem[c.idx], val)
+	default:
+		cur = slice(ch.startElem[c.idx])
+	}
+	for si := 0; si < k && si < len(c.steps); si++ {
+		if next, ok := apply(c.steps[si].plugin, cur, ch.fmapRes[fmt.Sprintf("%d/%d", c.idx, si)]); ok {
+			cur = next
+		}
+	}
+	return cur
+}
+
 func instantiate(sh shape, ch choice) version {
 	in := &inst{named: map[string]bool{}}
 	blocks := map[string][]string{}
@@ -355,14 +386,20 @@ func instantiate(sh shape, ch choice) version {
 		} else {
 			cur = slice(ch.startElem[c.idx])
 		}
+		if c.startTy != "" {
+			cur = parseTy(c.startTy)
+		}
 		flow := in.knownVar(cur)
-		if c.start == "mystery" {
+		if c.start == "mystery" && c.startTy == "" {
 			// the start value comes from a function that is declared nowhere and that no plugin generates
 			v := in.fresh("u")
 			in.body = append(in.body, fmt.Sprintf("%s := mystery%d(%s)", v, c.idx, flow.text), "_ = "+v)
 			flow = expr{text: v, from: fmt.Sprintf("mystery%d", c.idx)}
 		}
 		for si, st := range c.steps {
+			if si < c.skip {
+				continue
+			}
 			key := fmt.Sprintf("%d/%d", c.idx, si)
 			next, applicable := apply(st.plugin, cur, ch.fmapRes[key])
 			if !applicable {
@@ -489,11 +526,12 @@ func instantiate(sh shape, ch choice) version {
 // ---------------------------------------------------------------- random shapes
 
 type gen struct {
-	r      *rand.Rand
-	names  map[string]string // plugin + "|" + argument types of the NEW version -> name
-	used   map[string]bool
-	feats  map[string]bool
-	wanted []string // plugins of waiting calls with bare-prefix names whose result flows on
+	r        *rand.Rand
+	names    map[string]string // plugin + "|" + argument types of the NEW version -> name
+	used     map[string]bool
+	feats    map[string]bool
+	wanted   []string // plugins of waiting calls with bare-prefix names whose result flows on
+	wantedAt []string // where they stand ("C<chain>S<step>")
 }
 
 func (g *gen) pick(xs []string) string { return xs[g.r.Intn(len(xs))] }
@@ -545,6 +583,7 @@ func (g *gen) nameFor(plugin, sig, suffix string, waits, flowsOn bool) string {
 			g.feats["bare-prefix-name-on-waiting-call"] = true
 			if flowsOn && helperRequesters[plugin] != nil {
 				g.wanted = append(g.wanted, plugin)
+				g.wantedAt = append(g.wantedAt, suffix)
 			}
 		}
 	}
@@ -848,6 +887,7 @@ func (g *gen) scenario(id int) scenario {
 	g.used = map[string]bool{}
 	g.feats = map[string]bool{}
 	g.wanted = nil
+	g.wantedAt = nil
 	kinds := []string{"absent", "absent", "same", "same", "retyped", "retyped", "retyped", "retyped", "retyped", "retyped",
 		"renamed", "extra", "extra", "missing", "missing", "retyped-dropped", "retyped-dropped", "same-dropped", "emptied", "hand-written-added", "hand-written-added"}
 	kind := g.pick(kinds)
@@ -882,6 +922,33 @@ func (g *gen) scenario(id int) scenario {
 	for _, w := range g.wanted {
 		if g.r.Intn(100) < 70 {
 			sh.chains = append(sh.chains, g.requester(len(sh.chains), files[g.r.Intn(len(files))], w, &ch))
+		}
+	}
+	// head-added: the old sources lacked the FIRST call(s) of a chain (its start variable had the type they produce
+	// now): the old file declares the later functions and not the innermost one, so that a later call both waits for
+	// a type and resolves into the old file. Preferred where that call bears a bare-prefix name while another plugin
+	// asks for a helper of its plugin (seeded V-C07-B: the helper must not take its name).
+	headChain, headSkip := -1, 0
+	if kind != "emptied" && (g.r.Intn(100) < 8 || (len(g.wantedAt) > 0 && g.r.Intn(100) < 45)) {
+		for _, at := range g.wantedAt {
+			var ci, si int
+			fmt.Sscanf(at, "C%dS%d", &ci, &si)
+			if ci < len(sh.chains) && si >= 1 && sh.chains[ci].start != "mystery" && sh.chains[ci].start != "pair" {
+				headChain, headSkip = ci, si
+				g.feats["head-added-before-a-bare-named-waiting-call"] = true
+				break
+			}
+		}
+		if headChain < 0 {
+			for ci, c := range sh.chains {
+				if len(c.steps) >= 2 && c.start != "mystery" && c.start != "pair" {
+					headChain, headSkip = ci, 1+g.r.Intn(len(c.steps)-1)
+					break
+				}
+			}
+		}
+		if headChain >= 0 {
+			kind = "head-added"
 		}
 	}
 	if g.r.Intn(100) < 20 && len(sh.chains) > 0 {
@@ -937,6 +1004,15 @@ func (g *gen) scenario(id int) scenario {
 		sc.New = instantiate(shape{files: files}, ch)
 		sc.Depth = 0
 	case "absent":
+	case "head-added":
+		osh := sh
+		osh.chains = append([]chain{}, sh.chains...)
+		c := osh.chains[headChain]
+		c.skip = headSkip
+		c.startTy = typeAfter(c, ch, headSkip).String()
+		osh.chains[headChain] = c
+		o := instantiate(osh, ch)
+		sc.Old = &o
 	case "hand-written-added":
 		osh := sh
 		osh.hand = ""
